@@ -161,7 +161,7 @@ pub fn spec() -> PropSpec {
     PropSpec {
         id: "C04",
         level: "exploration",
-        rule: "value lists (0..6 values, depth <= 4) from the AMF0 generator: f64 bit-pattern pool (NaN payloads, -0, subnormals), strings and property names with boundary lengths 65534/65535/65536/70000, multi-byte UTF-8; non-trivial = encoder returned Ok and the list contains a nested container, a string/name of >= 65534 bytes, or a NaN/-0; distinct = distinct value list. The empty property name (D10, repaired in /repo 94e5ae5: the encoder refuses it) is kept out of the main campaign and exercised by the sub-check 'empty-name', where a round-trip failure with the old signature is a violation again",
+        rule: "value lists (0..6 values) from the AMF0 generator: trees of depth <= 4 plus chains of up to 200 nested containers (around the library's limit of 128), wide containers (255..70000 children), f64 bit-pattern pool (NaN payloads, -0, subnormals, marker-like byte patterns), strings and property names with boundary lengths 65534/65535/65536/70000, lengths whose high byte is marker-like, control characters and NULs, multi-byte UTF-8, numeric names, sibling names (same name in another case / with a trailing NUL or space / a prefix); sub-check 'roundtrip-after-a-refused-call' makes a half-way refused encoder or decoder call on the same thread first; non-trivial = encoder returned Ok and the list contains a nested container, a string/name of >= 65534 bytes, or a NaN/-0; distinct = distinct value list. The empty property name (D10, repaired in /repo 94e5ae5: the encoder refuses it) is kept out of the main campaign and exercised by the sub-check 'empty-name', where a round-trip failure with the old signature is a violation again",
         assumptions: vec![
             "an Err from serialize is never a C04 violation (the statement allows the encoder to report an error); that representable values are not refused is asserted by C12/C19",
             "equality: numbers by bit pattern, objects as unordered maps, strings byte-for-byte",
